@@ -1180,7 +1180,22 @@ func main() {
 	castTable := strings.ReplaceAll(b.String(), "(.widen ", "(.toF64 ")
 	writeIfChanged(filepath.Join(*out, "CastTable.lean"), castTable)
 	nunk := strings.Count(castTable, ".unknown")
-	fmt.Printf("Gen/CastTable.lean: %d casters, %d unknown\n", len(x.casters()), nunk)
+	var where []string
+	for _, blk := range strings.Split(castTable, "{ name := ")[1:] {
+		if strings.Contains(blk, ".unknown") {
+			where = append(where, strings.Trim(strings.SplitN(blk, ",", 2)[0], "\" "))
+		}
+	}
+	for _, row := range x.binFns() {
+		if strings.Contains(row, ".unknown") {
+			where = append(where, "binary_ops")
+			break
+		}
+	}
+	if r, d := x.dispatchTo(); strings.Contains(strings.Join(r, ""), ".unknown") || strings.Contains(d, ".unknown") {
+		where = append(where, "To")
+	}
+	fmt.Printf("Gen/CastTable.lean: %d casters, %d unknown in [%s]\n", len(x.casters()), nunk, strings.Join(where, " "))
 
 	jp, err := loadPkg(filepath.Join(*repo, "pkg/jsonline"), "github.com/cgi-fr/jsonline/pkg/jsonline")
 	if err != nil {
